@@ -88,7 +88,7 @@ func RunCtx(seed int64, idx int) *Result {
 		}
 		desc = fmt.Sprintf("node %s parks in %s during the construction of the term of height 1, then shutdown", nd.Id, []string{"RequestNewBlockProposal", "RequestOrderedCommittee"}[which])
 		nd.Start()
-		nd.ML.UpdateState(nd.ctx, nil, nil)
+		nd.Sync(nil, nil)
 		parked := false
 		for i := 0; i < 50000 && !parked; i++ {
 			mu.Lock()
@@ -113,9 +113,9 @@ func RunCtx(seed int64, idx int) *Result {
 	nd.BU.NilOnCancel = rng.Intn(2) == 0 // a block factory that gives up (returns no block) when its context is cancelled
 	nd.Start()
 	if H == 1 {
-		nd.ML.UpdateState(nd.ctx, nil, nil)
+		nd.Sync(nil, nil)
 	} else {
-		nd.ML.UpdateState(nd.ctx, &spi.Blk{H: H - 1, Body: "synced"}, nil)
+		nd.Sync(&spi.Blk{H: H - 1, Body: "synced"}, nil)
 	}
 	if nd.Witness(8) < 8 {
 		net.count("inconclusive: worker iterations not witnessed")
@@ -299,7 +299,7 @@ func RunCtx(seed int64, idx int) *Result {
 		if leave == 0 {
 			fire(H, pv)
 		} else {
-			nd.ML.UpdateState(nd.ctx, &spi.Blk{H: H + uint64(rng.Intn(4)), Body: "synced"}, nil)
+			nd.Sync(&spi.Blk{H: H + uint64(rng.Intn(4)), Body: "synced"}, nil)
 		}
 		nd.Barrier()
 		net.count("C15 leave stimuli judged")
